@@ -16,7 +16,7 @@ def gen_faulted(rng):
 
 
 Unit([("fault", gen_faulted, 1)],
-     (oracles.o_locks, oracles.o_c01, oracles.o_c07, oracles.o_c08, oracles.o_c09, oracles.o_c13, oracles.o_c14, oracles.o_c02),
+     (oracles.o_locks, oracles.o_c12_after_reconnect, oracles.o_c01, oracles.o_c07, oracles.o_c08, oracles.o_c09, oracles.o_c13, oracles.o_c14, oracles.o_c02),
      "a session touching every operation is first run healthy to learn its stream lengths; then a fault (transport timeout, connection reset, end-of-stream) "
      "is placed at a random inbound or outbound offset; afterwards close(), connect() to a healthy device and the same operations again. Checked on the "
      "implementation: no lock held after any call, every normally-returning call (before and after the fault) has the exact result, close/reconnect succeed. "
